@@ -710,7 +710,11 @@ class Sym:
                 return Sym(_simp(z3.ToInt(es)))
             k = c.fresh('floor', 'int')
             kr = z3.ToReal(k)
-            c.assume(z3.And(kr < self.e, self.e < kr + 1))
+            try:
+                c.assume(z3.And(kr < self.e, self.e < kr + 1))
+            except PathAbort:
+                # the argument is an integer for EVERY input of this path (e.g. identically 0): not a measure-zero boundary, keep the path
+                c.assume(kr == self.e)
             return Sym(k)
         return Sym(_simp(z3.ToInt(self.e)))
 
